@@ -324,10 +324,16 @@ def race_scenario(comp, rng, sid):
     if writer:
         xw = g.var(2, 'X')
         hold = rng.choice([2, 4, 6, 10])
-        w_ops = [f'lock X {xw} 0'] + [f'paywr 0 {g.nextval()}' for _ in range(hold)] + [f'dtor {xw}']
+        w_ops = [f'lock X {xw} 0'] + [f'paywr 0 {g.nextval()}' for _ in range(hold)]
+        if rng.random() < 0.5:
+            w_ops += [f'dtor {xw}']
+        else:
+            # the exclusive section ends by a downgrade: the fallback then meets SIX without shared holders
+            iw = g.var(2, 'SIX')
+            w_ops += [f'dng {iw} {xw}', 'payrd 0', 'payrd 0', 'payrd 0', f'dtor {iw}']
         sched += [2] * 3                       # the writer takes X
         sched += [0] * rng.randrange(1, 8)     # A starts: optimistic attempts see X
-        sched += [2] * (2 * hold + 2)          # the writer finishes
+        sched += [2] * (2 * hold + 2)          # the writer finishes (or downgrades)
     if writer and kind == 'prep':
         sched += [0] * rng.choice([1, 1, 1, 2, 3])   # the fallback's load sees the free word; its CAS is next
     else:
@@ -348,6 +354,43 @@ def race_scenario(comp, rng, sid):
     return '\n'.join(lines)
 
 
+def reader_writers_scenario(rng, sid):
+    """OptimisticLock: two exclusive sections contend (the second LockX starts while the first is held and is granted
+    after it commits), and an optimistic reader samples its version between the two commits and validates after the
+    second - the history in which a version published twice (or a stale version carried by the second guard) makes a
+    validation succeed across a committed section.  Explicit schedule prefix with randomised lengths."""
+    g = LockGen('opt', rng, nlocks=1)
+    x0, x1 = g.var(0, 'X'), g.var(1, 'X')
+    o = g.var(2, 'Opt')
+    s2 = g.var(2, 'S')
+    end0 = rng.choice(['dtor', 'dtor', 'dng'])
+    w0 = [f'lock X {x0} 0', f'paywr 0 {g.nextval()}']
+    if end0 == 'dng':
+        i0 = g.var(0, 'SIX')
+        w0 += [f'dng {i0} {x0}', 'payrd 0', f'dtor {i0}']
+    else:
+        w0 += [f'dtor {x0}']
+    w1 = [f'lock X {x1} 0', f'xver {x1}', f'paywr 0 {g.nextval()}', f'dtor {x1}']
+    rd = [f'getver {o} 0', f'gver {o}'] + rng.choice([[f'verify {o}'], [f'try S {s2} {o}', f'bool {s2}', f'dtor {s2}'],
+                                                        [f'verify {o}', f'verify {o}']])
+    sched = [0] * 3                              # writer 0 takes X
+    sched += [1] * rng.randrange(2, 5)           # writer 1 starts: its first look sees X
+    sched += [0] * rng.choice([3, 3, 4, 5])      # writer 0 writes and commits (or downgrades)
+    sched += [2] * rng.randrange(2, 4)           # the reader samples the version
+    sched += [0] * rng.randrange(0, 4)
+    sched += [1] * rng.randrange(5, 9)           # writer 1 is granted, writes, commits
+    pt = 3
+    px = g.var(pt, 'X')
+    progs = [w0, w1, rd, [f'lock X {px} 0', f'dtor {px}']]
+    kinds = ','.join(g.block * 4)
+    lines = [f'SCEN {sid} comp=opt nlocks=1 kinds={kinds} policy={rng.choice([0, 1, 2])} seed={rng.randrange(1, 1 << 30)} '
+             f'max_steps=3000 late={pt}']
+    lines += ['T ' + ';'.join(p) for p in progs]
+    lines.append('S ' + ' '.join(map(str, sched)))
+    lines.append('GO')
+    return '\n'.join(lines)
+
+
 def make_scenarios(comp, seed, count, prefix):
     rng = random.Random(f'{comp}-{seed}')
     out = []
@@ -361,6 +404,9 @@ def make_scenarios(comp, seed, count, prefix):
             continue
         if r0 < 0.48:
             out.append(race_scenario(comp, rng, f'{prefix}{i}'))
+            continue
+        if comp == 'opt' and r0 < 0.54:
+            out.append(reader_writers_scenario(rng, f'{prefix}{i}'))
             continue
         nlocks = 2 if rng.random() < 0.35 else 1
         g = LockGen(comp, rng, nlocks=nlocks)
